@@ -18,6 +18,7 @@ EXHAUSTIVE = {"quick": {"sets of disjoint equal-length groups over N<=4 modes": 
               "thorough": {"sets of disjoint equal-length groups over N<=5 modes": "complete"}}
 NPINT_ARGS = True     # a quarter of the cases pass their integer arguments as NumPy integers (core.Ctx.begin)
 STRIDED_ARGS = True   # a quarter of the cases pass every array argument as a strided, non-contiguous view (core.Ctx.begin)
+SEQ_ARGS = True       # a quarter of the cases pass short integer arrays (mode lists, permutations) as plain lists / tuples (core.Ctx.begin)
 WATCHDOG = {"quick": 600, "thorough": 3000}
 
 
